@@ -373,6 +373,8 @@ CASES = [
                  dict(name="f", params=LF, returns="float", fuel_params=["py_fuel"])]), None),
     ("min(*l) of a list of floats translates", "def f(a):\n    return min(*a)\n", spec_for(LF, "float"), None),
     ("min(*l) of a list of lists", "def f(a):\n    return min(*a)\n", spec_for({"a": "list[list[float]]"}, "list[float]"), "min(*l) of a"),
+    ("zip of three lists translates", "def f(a):\n    return [x - y - z for x, y, z in zip(a, a, a)]\n", spec_for(LF, "list[float]"), None),
+    ("zip of four lists", "def f(a):\n    return [x for x, y, z, w in zip(a, a, a, a)]\n", spec_for(LF, "list[float]"), "zip() arguments"),
     ("a % n with a run-time divisor", "def f(a, n):\n    return len(a) % n\n", spec_for({"a": "list[float]", "n": "int"}, "int"), "integer operator Mod"),
 ]
 
